@@ -51,15 +51,17 @@ Qed.
 Lemma WI_heap h h2 o others : WI (mkS h o others) -> WI (mkS h2 o others).
 Proof. unfold WI. now rewrite !units_split. Qed.
 
-Lemma WI_sub_step ats s : WI s -> W s -> WI (fst (sub_step ats s)).
+Lemma WI_sub_step_g rh ats s : WI s -> W s -> WI (fst (sub_step_g rh ats s)).
 Proof.
-  intros F Ws. pose proof (W_cur s Ws) as Uc. unfold sub_step. destruct s as [h o others]. cbn [s_heap s_cur s_others] in *.
-  destruct (substructure ats h o) as [[[h2 o2] e]|err] eqn:E; [|exact F].
-  pose proof (sub_inj true ats h o h2 o2 e (proj1 (proj1 Uc)) E) as J.
-  destruct (sub_spec _ _ _ _ _ _ (proj1 (proj1 Uc)) E) as [h1 [sub0 [_ [I0 [_ [B0 [_ [_ R]]]]]]]].
-  pose proof (good1_backup _ _ _ fix_both_good I0) as Bk. rewrite R in Bk.
+  intros F Ws. pose proof (W_cur s Ws) as Uc. unfold sub_step_g. destruct s as [h o others]. cbn [s_heap s_cur s_others] in *.
+  destruct (substructure_g rh ats h o) as [[[h2 o2] e]|err] eqn:E; [|exact F].
+  pose proof (sub_inj rh ats h o h2 o2 e (proj1 (proj1 Uc)) E) as J.
+  destruct (sub_spec_g _ _ _ _ _ _ _ (proj1 (proj1 Uc)) E) as [h1 [sub0 [_ [I0 [_ [B0 [_ [_ R]]]]]]]].
+  pose proof (good1_backup _ _ _ (sub_finish_good rh) I0) as Bk. rewrite R in Bk.
   destruct e as [e|]; cbn [fst]; [now apply (WI_heap h) | apply (WI_add h); [exact F | exact J | congruence]].
 Qed.
+Lemma WI_sub_step ats s : WI s -> W s -> WI (fst (sub_step ats s)).
+Proof. apply WI_sub_step_g. Qed.
 
 Lemma WI_split_loop cs : forall s old, WI s -> W s -> WI (mkS (s_heap s) (s_cur s) old) -> WI (fst (split_loop cs s old)).
 Proof.
@@ -174,6 +176,7 @@ Proof.
     assert (WI (fst (lift (read Kcc) s))) as F1 by (apply WI_lift; auto; [apply iact_ka, ka_read | apply same_backup; [apply read_good | apply Uc]]).
     assert (W (fst (lift (read Kcc) s))) as W1 by (apply W_lift; [exact Ws | apply read_good | now apply read_HC]).
     apply WI_split_loop; [exact F1 | exact W1 | destruct (fst (lift (read Kcc) s)); exact F1].
+  - now apply WI_sub_step_g.
   - (* swap *) destruct s as [h o [|a t]]; [exact F|]. cbn [fst]. unfold WI in *. rewrite units_others in *.
     apply Forall_app in F. destruct F as [F1 F2]. apply Forall_app in F2. destruct F2 as [F2 F3].
     apply Forall_app. split; [exact F2|]. apply Forall_app. split; assumption.
